@@ -116,6 +116,10 @@ def merge_vertices(
     mask = np.nonzero(referenced)[0][u]
     # run the update including normals and UV coordinates
     mesh.update_vertices(mask=mask, inverse=inverse)
+    if merge_norm and len(u) < referenced.sum():
+        # vertices were merged whatever their normals were so the normal
+        # kept for a group is not the normal of the merged vertex
+        mesh._cache.delete("vertex_normals")
 
 
 def group(values, min_len: Optional[Integer] = None, max_len: Optional[Integer] = None):
